@@ -118,6 +118,8 @@ class Gen:
             start = r.choice([0, 0, 1, 2])
             step = r.choice([1, 1, 2])
             cnt = r.choice([1, 2, 3])
+            if self.persist and r.random() < 0.3:       # (rich stream) counting down
+                start, step = start + 3, -step
             level = len(loops) + 1
             body = self.stmts(r.choice([1, 2]), depth + 1, loops + [(level, start + cnt * step if step == 1 else 99)])
             return [{"s": "loop", "start": start, "stop": start + cnt * step, "step": step, "form": r.choice(["ctx", "body"]), "body": body}]
@@ -262,6 +264,11 @@ def directed() -> List[Dict[str, Any]]:
                                                      G1("h", "P1"), G1("t", "P1"), G1("z", "P2"), F], "meas": [0]})
             D.append({"history": [A("A1", [v0])] + P + [G1("y", "P1"), {"s": "if", "cmp": "ne", "a": fut("A1", c(0)), "b": c(1), "form": form,
                                                                       "body": [G1("x", "P1"), G1("h", "P2")]}, G1("s", "P2"), G1("k", "P1"), F], "meas": [0]})
+    # counting down, both forms of the loop
+    for form in ("ctx", "body"):
+        D.append({"history": [A("A1", [10, 0, 0, 0])] + [{"s": "loop", "start": 3, "stop": 0, "step": -1, "form": form,
+                                                         "body": [{"s": "add", "t": fut("A1", lv(1)), "o": c(1), "mod": -1}, {"s": "add", "t": fut("A1", c(0)), "o": lv(1), "mod": -1}]},
+                              {"s": "loop", "start": 4, "stop": -2, "step": -2, "form": form, "body": [{"s": "add", "t": fut("A1", c(0)), "o": lv(1), "mod": -1}]}, F, RA("A1")], "meas": [0]})
     D.append({"history": [A("A1", [0])] + P + [G1("x", "P2"), {"s": "loop", "start": 0, "stop": 2, "step": 1, "form": "ctx", "body": [G1("h", "P1"), G1("z", "P2")]},
                                               G1("t", "P2"), G1("x", "P1"), F], "meas": [0]})
     # arrays with undefined initial entries and all-equal values
